@@ -143,7 +143,10 @@ def emission_hook(w, st, node, name, recv, args):
         rt = w.method_ret(name)
         return Sym("ret:" + name, rt)
     if name in w.mods:
-        st.events.append({"kind": "call", "node": node, "callee": name, "args": list(args)})
+        prot = st.env.get("self.protected")
+        if prot is None:
+            prot = Sym("self.protected@%d" % st.notes.get("ep:protected", 0), "bool")
+        st.events.append({"kind": "call", "node": node, "callee": name, "args": list(args), "protected": prot})
         w.havoc(st, w.mods[name])
         rt = w.method_ret(name)
         return Sym("ret%d:%s" % (len(st.events), name), rt)
